@@ -777,7 +777,9 @@ impl<'a> UdpNhcRepr {
                 checksum::data(packet.payload_mut()),
             ]);
 
-            packet.set_checksum(chk_sum);
+            // A computed checksum of zero is transmitted as all ones: zero means
+            // "no checksum", which IPv6 does not allow (RFC 768, RFC 8200 8.1).
+            packet.set_checksum(if chk_sum == 0 { 0xffff } else { chk_sum });
         } else {
             // The checksum is always carried in-line (see `header_len`); don't
             // leave the C bit and the checksum octets as found in the buffer.
